@@ -147,8 +147,34 @@ class LossyCopy:
         return f"LossyCopy({self.n!r})"
 
 
+def mutate_in_place(v, depth=0):
+    """harness helper: changes the first mutable container found inside v (used to mutate an observed
+    value *after* it was compared); returns True if something was changed"""
+    if depth > 4:
+        return False
+    if isinstance(v, list):
+        v.append(424242)
+        return True
+    if isinstance(v, dict) and not isinstance(v, defaultdict):
+        v["__mutated__"] = 424242
+        return True
+    if isinstance(v, set):
+        v.add(424242)
+        return True
+    if isinstance(v, tuple):
+        return any(mutate_in_place(x, depth + 1) for x in v)
+    for name in ("x", "y", "items", "meta", "a", "b", "xs", "tags"):
+        if hasattr(v, name) and not isinstance(v, type):
+            try:
+                if mutate_in_place(getattr(v, name), depth + 1):
+                    return True
+            except Exception:
+                pass
+    return False
+
+
 __all__ = [
-    "IdentityEq", "LossyCopy",
+    "IdentityEq", "LossyCopy", "mutate_in_place",
     "Color", "Level", "Perm", "Outer", "Point", "FPoint", "Box", "APoint", "AFrozen",
     "PModel", "NT", "TNT", "Opaque", "Vec", "defaultdict", "inf",
 ]
